@@ -25,8 +25,11 @@ func (c *Client) Authenticate(saslClient sasl.Client) error {
 	}
 
 	cmd := &authenticateCommand{}
-	contReq := c.registerContReq(cmd)
 	enc := c.beginCommand("AUTHENTICATE", cmd)
+	// The continuation request must be registered while holding the encoder
+	// lock, otherwise it could be queued before the one of a command started
+	// concurrently but sent first
+	contReq := c.registerContReq(cmd)
 	enc.SP().Atom(mech)
 	if initialResp != nil && hasSASLIR {
 		enc.SP().Atom(internal.EncodeSASL(initialResp))
